@@ -108,7 +108,7 @@ def evaluate(ctx, cases):
             if c['kind'] == 'signal' and c['via'] == 'object' and (c['mode'] == 'same' or red is not None):
                 implutil.quiet(bm.recompute_edges, red); out_df = bm.df_features
             else:
-                out_df = implutil.quiet(recompute_edges, df, th)
+                out_df = implutil.quiet(recompute_edges, df, (implutil.np_scalars(th) if len(df) % 3 == 1 else th))       # (a third with numpy-scalar threshold values)
             err = None
         except Exception as e:
             out_df, err = None, type(e).__name__ + ': ' + str(e)[:120]
